@@ -25,6 +25,84 @@ def payload_field(prog, tree):
     return None
 
 
+def must_store_payload(prog, f, pf, tree, _stack=None):
+    """every entry-to-return path of f passes a store into a node's payload field, directly or in a callee"""
+    key = ('muststore', f.path)
+    if key in prog._summ_cache:
+        return prog._summ_cache[key]
+    _stack = _stack or set()
+    if f.path in _stack:
+        return False
+    _stack = _stack | {f.path}
+    b = f.body
+    sites = set()
+    for st in b.stores:
+        acc = prog.accessor_call(strip(st.root))
+        fl = st.fields()
+        if acc is not None and fl and fl[0] == pf:
+            sites.add(st.point[0])
+    for c in b.calls:
+        tgt = prog.resolve(c)
+        if tgt is not None and tgt.self_adt == tree and not tgt.is_closure and tgt.path not in prog.accessors and must_store_payload(prog, tgt, pf, tree, _stack):
+            sites.add(c.point[0])
+    cfg = b.cfg
+    ok = bool(sites)
+    if ok and 0 not in sites:
+        for ret in cfg.returns:
+            if ret in sites:
+                continue
+            if ret == 0 or cfg.paths_avoiding(0, ret, sites):
+                ok = False
+    prog._summ_cache[key] = ok
+    return ok
+
+
+def delete_removes_found(prog, f, tree, removals):
+    """None if fine, else the reason"""
+    from rules.gate import edge_truth
+    b = f.body
+    cfg = b.cfg
+    rem_blocks = {}
+    for c in b.calls:
+        tgt = prog.resolve(c)
+        if tgt is not None and tgt.path in removals:
+            rem_blocks[c.point[0]] = c
+    if not rem_blocks:
+        return 'delete never runs the removal transaction: the key stays in the collection'
+    found_tests = 0
+    for blk, d in b.switch_discr.items():
+        d = strip(d)
+        if not (d.kind == 'bin' and d.args[0] in ('Eq', 'Ne')):
+            continue
+        x, y = strip(d.args[1]), strip(d.args[2])
+        idx = x if prog.is_empty_ref(y) else (y if prog.is_empty_ref(x) else None)
+        if idx is None or idx.kind != 'call' or prog.resolve(idx) is None:
+            continue
+        found_tests += 1
+        t = b.mir['blocks'][blk]['term']
+        for succ in cfg.succ[blk]:
+            tr = edge_truth(t, succ)
+            if tr is None:
+                continue
+            nonempty = tr if d.args[0] == 'Ne' else not tr
+            if not nonempty:
+                continue
+            for ret in cfg.returns:
+                if succ in rem_blocks:
+                    continue
+                if succ == ret or cfg.paths_avoiding(succ, ret, set(rem_blocks)):
+                    return 'the search found the key (index != EMPTY_REF) but a path returns without running the removal transaction'
+        for c in rem_blocks.values():
+            if strip(c.args[1]) is not idx:
+                return 'the removal is run on %s, not on the index the search returned' % show(c.args[1], 2)
+    if not found_tests:
+        # unconditional form: the removal must then lie on every path
+        for ret in cfg.returns:
+            if ret not in rem_blocks and cfg.paths_avoiding(0, ret, set(rem_blocks)) and 0 not in rem_blocks:
+                return 'a path through delete returns without running the removal transaction and without a test that the key was not found'
+    return None
+
+
 def overwritten_before(prog, f, slot, reads, pf, own_store):
     """is the payload of node(slot) written (directly or through a helper) at a site from which one of `reads` is reachable?"""
     from summaries import node_writes
@@ -118,6 +196,15 @@ def run(ctx):
                                     props, span_line(c, f.line))
         if n_writes < 3:
             ctx.anchor_missing(RULE, 'payload write sites of %s' % tree, props, n_writes, 3)
+        # ---- the public operations perform their effect on every path on which they must ----
+        for f in fns:
+            if f.trait_method() == 'insert':
+                ok = must_store_payload(prog, f, pf, tree)
+                ctx.add(RULE, f, 'insert-stores-payload', 'ok' if ok else 'violation',
+                        'every path through insert stores the payload into a slot of the arena' if ok else 'some path through insert returns without storing the payload anywhere: the entry is silently dropped', props, f.line)
+            if f.trait_method() == 'delete':
+                why = delete_removes_found(prog, f, tree, removals)
+                ctx.add(RULE, f, 'delete-removes-found', 'violation' if why else 'ok', why or 'on every path on which the search found the key the removal transaction is run on the index found', props, f.line)
         # emptiness and root writers
         for f in fns:
             if f.trait_method() == 'is_empty':
